@@ -506,29 +506,44 @@ type connPlan struct {
 	OmitEmpty  bool
 	SkipVerify bool
 	WrapPSK    bool // observe PatchBuiltHello through lenPSK
+	// Prep: what the caller does before Handshake (which builds the hello again): 0 nothing; 1 BuildHandshakeState;
+	// 2 BuildHandshakeState + SetClientRandom; 3 BuildHandshakeState + an ALPN value edited in place (same length)
+	Prep int
+	// Rotate: before this connection the servers replace their session ticket key (the old one is forgotten)
+	Rotate bool
+	// Tamper: before this connection the test corrupts the secret of the session cached under the connection's key
+	// (a cache entry the server will not accept any more): the resumption attempt must fail cleanly, the entry must be
+	// evicted, and the connection after it must complete with a full handshake
+	Tamper bool
 }
 
 type connObs struct {
-	Plan       connPlan
-	CliErr     string
-	CliPanic   string
-	CliResumed bool
-	CliVers    uint16
-	CliSuite   uint16
-	CliHRR     bool // the server saw two ClientHellos
-	CliHRRSeen bool // the client received a HelloRetryRequest
-	Srv        srvResult
-	SrvSeen    bool
-	Events     []cacheEvent
-	After      map[int]tls.VerifC19Session // cache content after the connection, by model key id (names and listener addresses)
-	Identity   string                      // what the property calls the server name: Config.ServerName, or "@"+remote address without one
-	Now        uint64
-	LenPre     int
-	LenPost    int
-	LenSeen    bool
+	Plan           connPlan
+	CliErr         string
+	CliPanic       string
+	CliResumed     bool
+	CliVers        uint16
+	CliSuite       uint16
+	CliHRR         bool // the server saw two ClientHellos
+	CliHRRSeen     bool // the client received a HelloRetryRequest
+	Srv            srvResult
+	SrvSeen        bool
+	Events         []cacheEvent
+	After          map[int]tls.VerifC19Session // cache content after the connection, by model key id (names and listener addresses)
+	Identity       string                      // what the property calls the server name: Config.ServerName, or "@"+remote address without one
+	Epoch          int                         // ticket key epoch of the servers during this connection
+	Tampered       bool                        // a cached session was actually corrupted before this connection
+	TamperedTicket []byte                      // its ticket
+	BadOffered     bool                        // this connection offered a session the test had corrupted (set by the evaluation)
+	Now            uint64
+	LenPre         int
+	LenPost        int
+	LenSeen        bool
 }
 
 type world struct {
+	seed  int64
+	epoch int
 	pk    *pki
 	clk   *clock
 	srvs  [nSrvKinds]*server
@@ -548,7 +563,46 @@ func newWorld(pk *pki, seed int64) (*world, error) {
 		w.srvs[k] = s
 	}
 	w.cache = &recCache{inner: tls.NewLRUClientSessionCache(32)}
+	w.seed = seed
 	return w, nil
+}
+
+// tamper flips one byte of the secret of the session cached under key (through the exported session API)
+func (w *world) tamper(key string) []byte {
+	cs, ok := w.cache.inner.Get(key)
+	if !ok || cs == nil {
+		return nil
+	}
+	ticket, st, err := cs.ResumptionState()
+	if err != nil || st == nil {
+		return nil
+	}
+	b, err := st.Bytes()
+	// SessionState: version(2) type(1) cipher_suite(2) created_at(8) secret<1..2^8-1> ...
+	if err != nil || len(b) < 15 || int(b[13]) < 1 {
+		return nil
+	}
+	b[14] ^= 0xff
+	st2, err := tls.ParseSessionState(b)
+	if err != nil {
+		return nil
+	}
+	cs2, err := tls.NewResumptionState(ticket, st2)
+	if err != nil {
+		return nil
+	}
+	w.cache.inner.Put(key, cs2)
+	return ticket
+}
+
+// rotate: every server of the world forgets its ticket key and gets a new one
+func (w *world) rotate() {
+	w.epoch++
+	var key [32]byte
+	vh.NewRand(w.seed + int64(w.epoch)*7919).Read(key[:])
+	for _, s := range w.srvs {
+		s.cfg.SetSessionTicketKeys([][32]byte{key})
+	}
 }
 
 // keys: every string the cache could be keyed by in this world, by model id
@@ -576,6 +630,18 @@ func (w *world) close() {
 func (w *world) connect(pl connPlan) (o connObs) {
 	o.Plan = pl
 	w.clk.advance(pl.Advance)
+	if pl.Rotate {
+		w.rotate()
+	}
+	if pl.Tamper {
+		key := serverNames[pl.Name]
+		if key == "" {
+			key = w.srvs[pl.Srv].ln.Addr().String()
+		}
+		o.TamperedTicket = w.tamper(key)
+		o.Tampered = o.TamperedTicket != nil
+	}
+	o.Epoch = w.epoch
 	o.Now = uint64(w.clk.now().Unix())
 	s := w.srvs[pl.Srv]
 	tc, err := net.Dial("tcp", s.ln.Addr().String())
@@ -624,6 +690,35 @@ func (w *world) connect(pl connPlan) (o connObs) {
 			if err := uc.SetPskExtension(lp); err != nil {
 				o.CliErr = "SetPskExtension: " + err.Error()
 				return
+			}
+		}
+		if pl.Prep > 0 {
+			// the documented multi-step use: build, look at / change the hello (anything but the session extensions),
+			// then Handshake, which builds again
+			if err := uc.BuildHandshakeState(); err != nil {
+				o.CliErr = err.Error()
+				return
+			}
+			switch pl.Prep {
+			case 2:
+				r := make([]byte, 32)
+				for i := range r {
+					r[i] = byte(0xA5 ^ i*13 ^ pl.Name)
+				}
+				if err := uc.SetClientRandom(r); err != nil {
+					o.CliErr = "SetClientRandom: " + err.Error()
+					return
+				}
+			case 3:
+				for _, e := range uc.Extensions {
+					if a, ok := e.(*tls.ALPNExtension); ok && len(a.AlpnProtocols) > 0 {
+						ps := append([]string(nil), a.AlpnProtocols...)
+						last := []byte(ps[len(ps)-1])
+						last[len(last)-1] ^= 1
+						ps[len(ps)-1] = string(last)
+						a.AlpnProtocols = ps
+					}
+				}
 			}
 		}
 		if err := uc.Handshake(); err != nil {
